@@ -44,10 +44,8 @@ Definition api_game_of (skip hash : bool) (r : replay) : option game :=
 Definition api_read_map (bs : list byte) := read_map bs.
 Definition api_mk_replay (start : list byte) (g : option gecko_t) (fs : list aframe) (e : aend) (m : option utree) : replay :=
   {| r_start := start; r_gecko := g; r_frames := fs; r_end := e; r_meta := m |}.
-Definition api_mk_frame (id : Z) (st : list byte) (cs : list achar) (its : list (list byte)) (en : list byte) : aframe :=
-  {| af_id := id; af_start := st; af_chars := cs; af_items := its; af_end := en |}.
-Definition api_mk_char (p : N) (f : bool) (pre post : list byte) : achar :=
-  {| ac_port := p; ac_fol := f; ac_pre := pre; ac_post := post |}.
+Definition api_mk_frame (id : Z) (st : list byte) (cs : list (option (list byte * list byte))) (its : list (list byte)) (en : list byte) : aframe :=
+  {| af_id := id; af_start := st; af_slots := cs; af_items := its; af_end := en |}.
 Definition api_mk_gecko (b : list byte) (a : N) : gecko_t := {| gk_bytes := b; gk_actual := a |}.
 
 From Peppi Require Import Model.Rollbacks Model.ShiftJis.
